@@ -27,6 +27,8 @@ import XdslModel.ArithFloatLogic
 import XdslModel.LLVM
 import XdslModel.X86
 import XdslModel.Lexer
+import XdslModel.ArithRules
+import XdslModel.CSE
 /-!
 Model registry for the driver: `MODEL <name>` selects a `(state, lineStep)` pair.
 A continuation-passing encoding is used because the state types differ.
@@ -66,6 +68,8 @@ def run? (name : String) : Option Runner :=
   | "llvm" => some fun k => k LLVM.lineStep {}
   | "x86" => some fun k => k X86.lineStep {}
   | "mlir_lexer" => some fun k => k Lexer.lineStep ()
+  | "arith_rules" => some fun k => k ArithRules.lineStep ()
+  | "cse" => some fun k => k CSE.lineStep ()
   | _ => none
 
 end Xdsl.Registry
